@@ -169,7 +169,7 @@ func c14Mutate(r *Rand, q *xQuery) string {
 	walk(q.Set, "Q")
 	i := r.Intn(len(sets))
 	ss, typ := sets[i], typs[i]
-	kind := []string{"unknown_field", "sub_on_scalar", "no_sub_on_object", "alias_conflict", "field_on_union", "typename_sub", "foreign_fragment", "root_typename"}[r.Intn(8)]
+	kind := []string{"unknown_field", "sub_on_scalar", "no_sub_on_object", "alias_conflict", "field_on_union", "typename_sub", "foreign_fragment", "root_typename", "shared_fragment_elsewhere", "shared_fragment_elsewhere"}[r.Intn(10)]
 	pick := func(pred func(*xSel) bool) *xSel {
 		var c []*xSel
 		for _, s := range ss.Sels {
@@ -184,6 +184,69 @@ func c14Mutate(r *Rand, q *xQuery) string {
 	}
 	leafSub := func() *xSelSet { return &xSelSet{Sels: []*xSel{{Alias: "__typename"}}} }
 	switch kind {
+	case "shared_fragment_elsewhere":
+		// spread a named fragment that is used (validly) under one object type also under the other
+		// object type, where its selections are unknown or have another type
+		if typ != "A" && typ != "B" {
+			return ""
+		}
+		other := map[string]string{"A": "B", "B": "A"}[typ]
+		var cands []*xFrag
+		for _, d := range q.Defs {
+			if d.On == other {
+				cands = append(cands, d)
+			}
+		}
+		if len(cands) == 0 {
+			// define one on the other type, use it there validly if such a place exists, and here
+			var leaf *xField
+			for _, f := range xFieldsOf(other) {
+				if f.Name == "cEx" {
+					leaf = f
+				}
+			}
+			def := &xFrag{On: other, Named: "FX"}
+			sel := &xSel{Alias: "cEx", Field: leaf}
+			if other == "B" {
+				sel.Sub = &xSelSet{Sels: []*xSel{{Alias: "z", Field: xFieldByName["A.z"]}}}
+			}
+			def.Set = &xSelSet{Sels: []*xSel{sel}}
+			q.Defs["FX"] = def
+			cands = append(cands, def)
+			// a valid use under the fragment's own type, if the query has a place for it
+			for j, t := range typs {
+				if t == other {
+					sets[j].Frags = append(sets[j].Frags, &xFrag{On: other, Set: def.Set, Named: "FX"})
+					break
+				}
+			}
+		}
+		sortFrags(cands)
+		d := cands[r.Intn(len(cands))]
+		// no cycles: the place must not lie inside the fragment itself
+		inside := false
+		seenIn := map[*xSelSet]bool{}
+		var reach func(x *xSelSet)
+		reach = func(x *xSelSet) {
+			if x == nil || seenIn[x] {
+				return
+			}
+			seenIn[x] = true
+			if x == ss {
+				inside = true
+			}
+			for _, s := range x.Sels {
+				reach(s.Sub)
+			}
+			for _, f := range x.Frags {
+				reach(f.Set)
+			}
+		}
+		reach(d.Set)
+		if inside {
+			return ""
+		}
+		ss.Frags = append(ss.Frags, &xFrag{On: d.On, Set: d.Set, Named: d.Named})
 	case "root_typename":
 		q.Set.Sels = append(q.Set.Sels, &xSel{Alias: "__typename"})
 	case "unknown_field":
@@ -309,6 +372,22 @@ func c14One(c *Ctx, m *Model, schemaEnc interface{}, root *xNode, q *xQuery, mut
 		rep.Fail(kind, c14KF(cs, mValidate, mNoConf), cs, map[string]interface{}{"what": "panic while parsing / validating / executing", "accepted_before_panic": accepted, "panic": firstN(fmt.Sprint(panicked), 300), "model": resp})
 		return
 	}
+	if accepted && execErr != nil && strings.Contains(execErr.Error(), "marked non-nullable but returned a null value") {
+		// a NonNullable resolver returned nil: an error is the advertised behaviour; the model must agree
+		cresp, err := m.Call(map[string]interface{}{"op": "conform", "schema": schemaEnc, "root": 4, "data": xNodeEnc(root),
+			"query": q.enc(q.Set), "fuel": 40, "response": nil})
+		if err != nil {
+			rep.Fail("harness_error", nil, cs, map[string]interface{}{"error": err.Error()})
+			return
+		}
+		if exec, _ := cresp["exec"].(map[string]interface{}); exec["err"] == nil {
+			rep.Fail("impl_ne_model", nil, cs, map[string]interface{}{"what": "non-null enforcement failed the query although no NonNullable resolver returns nil", "error": firstN(execErr.Error(), 200)})
+			return
+		}
+		rep.Count("accepted:nonnull_error")
+		rep.Eval(q.Text+Canon(xNodeEnc(root)), true, map[string]interface{}{"query": firstN(q.Text, 200), "mutation": mutation})
+		return
+	}
 	if accepted && execErr != nil {
 		rep.Fail("impl_ne_spec", c14KF(cs, mValidate, mNoConf), cs, map[string]interface{}{"what": "a query accepted by validation fails at execution on error-free data (type/shape reason)", "error": firstN(execErr.Error(), 300), "model": resp})
 		return
@@ -342,12 +421,24 @@ func c14One(c *Ctx, m *Model, schemaEnc interface{}, root *xNode, q *xQuery, mut
 		return
 	}
 	exec, _ := cresp["exec"].(map[string]interface{})
+	if exec["err"] != nil {
+		rep.Fail("impl_ne_spec", nil, cs, map[string]interface{}{"what": "a NonNullable resolver returned nil (or a resolver failed) but the response carries data: null under a type advertised as non-null", "response": out, "model": exec})
+		return
+	}
 	if Canon(q.jEnc(out)) != Canon(sortJ(exec["ok"])) {
 		rep.Fail("impl_ne_model", nil, cs, map[string]interface{}{"what": "response differs from the executor model", "impl": q.jEnc(out), "model": sortJ(exec["ok"])})
 		return
 	}
 	rep.Count("accepted:" + mutation)
 	rep.Eval(q.Text+Canon(xNodeEnc(root)), true, map[string]interface{}{"query": firstN(q.Text, 200), "mutation": mutation})
+}
+
+func sortFrags(fs []*xFrag) {
+	for i := 1; i < len(fs); i++ {
+		for j := i; j > 0 && fs[j].Named < fs[j-1].Named; j-- {
+			fs[j], fs[j-1] = fs[j-1], fs[j]
+		}
+	}
 }
 
 // c14KF: signatures of recorded findings (none listed at present).
@@ -392,7 +483,7 @@ func runC14(c *Ctx) error {
 	}
 	n := c.N(1200, 60000)
 	for i := 0; i < n && !c.Rep.ShouldStop(); i++ {
-		g := &xGen{r: c.Rng}
+		g := &xGen{r: c.Rng, nnNulls: c.Rng.Chance(0.5)}
 		root := g.node("Q", 3)
 		q := genXQuery(c.Rng, 3, []float64{0, 0.2}[c.Rng.Intn(2)], 0)
 		mutation := "none"
